@@ -226,7 +226,7 @@ pub fn run(ctx: &Ctx) -> CheckResult {
     res.absorb(merge_jobs(outs));
     // (b)
     if !res.out.failed() {
-        let shapes = [Regime::Up, Regime::Down, Regime::Extremes, Regime::Flat, Regime::Walk, Regime::Stair, Regime::ZeroMix];
+        let shapes = [Regime::Up, Regime::Down, Regime::Extremes, Regime::Flat, Regime::Walk, Regime::Stair, Regime::ZeroMix, Regime::PlateauSweep];
         let pairs = orderings(&shapes, 2);
         let (periods, seglen): (Vec<usize>, usize) = if th {
             let mut p: Vec<usize> = (1..=16).collect();
@@ -325,7 +325,7 @@ pub fn run(ctx: &Ctx) -> CheckResult {
     }
     res.exhaustive = false;
     res.rule = "case = (configuration, stream): (a) bincode length of the real object in every state of every short sequence; (b) long generated streams (every ordered pair of shape segments): serialized length at checkpoints and live heap bytes of the executing thread (counting global allocator) after warm-up vs after every segment; both must stay <= 256 + 64*sum(periods); non-trivial = state beyond the first window / long run".into();
-    res.bounds = format!("(a) all 22 indicators, periods 1..4, all sequences over 3 symbols + reset up to depth min(3n+3, {}); (b) periods {} x all 49 ordered pairs of {{up, down, alternating extremes, flat, LCG walk, stair, zero-mix (0.0 / -0.0 / small signed values)}} x segment length {} (O(n)-per-step subjects shortened and thinned); every 4th pair additionally with reset() every 10 / 2n+1 inputs, with a single reset() after warm-up, replaced by its clone / by a restored copy eight times per segment, copied with clone_from into an instance of 8x larger periods, with one NaN input after warm-up, with two inputs of magnitude 1e154 (overflowing products), continued on a bincode-restored copy, and (indicators with a scalar path) with bars and scalars fed to the same instance in turn; Default::default() instances of all 22 indicators against the bound of the parameters they report", if th { 13 } else { 10 }, if th { "1..16, 31..33, 63..65, 127..129, 255..257, 511, 512" } else { "1, 2, 5, 14, 64, 257" }, if th { 500_000 } else { 20_000 });
+    res.bounds = format!("(a) all 22 indicators, periods 1..4, all sequences over 3 symbols + reset up to depth min(3n+3, {}); (b) periods {} x all 64 ordered pairs of {{up, down, alternating extremes, flat, LCG walk, stair, zero-mix (0.0 / -0.0 / small signed values), plateau sweep (alternating extremes held for 80, 79, ... 1 inputs, then a zig-zag)}} x segment length {} (O(n)-per-step subjects shortened and thinned); every 4th pair additionally with reset() every 10 / 2n+1 inputs, with a single reset() after warm-up, replaced by its clone / by a restored copy eight times per segment, copied with clone_from into an instance of 8x larger periods, with one NaN input after warm-up, with two inputs of magnitude 1e154 (overflowing products), continued on a bincode-restored copy, and (indicators with a scalar path) with bars and scalars fed to the same instance in turn; Default::default() instances of all 22 indicators against the bound of the parameters they report", if th { 13 } else { 10 }, if th { "1..16, 31..33, 63..65, 127..129, 255..257, 511, 512" } else { "1, 2, 5, 14, 64, 257" }, if th { 500_000 } else { 20_000 });
     res.assumptions = vec!["systematically enumerated family of stream shapes, not all streams".into(), "live heap is measured per thread: memory handed to another thread would not be seen (the crate spawns no threads)".into()];
     res
 }
